@@ -313,12 +313,10 @@ func (txn *Txn) Commit() {
 	simPoint(ptCommit)
 	newRoot := txn.rootTxn.commit()
 	txn.fox.tree.Store(newRoot)
-	simPoint(ptStored)
 
 	// Clear the txn
 	txn.rootTxn = nil
 	txn.fox.mu.Unlock()
-	simPoint(ptUnlocked)
 }
 
 // Abort cancel the transaction. This is a noop for read transactions, already aborted or
@@ -339,7 +337,6 @@ func (txn *Txn) Abort() {
 	// Clear the txn
 	txn.rootTxn = nil
 	txn.fox.mu.Unlock()
-	simPoint(ptUnlocked)
 }
 
 // Snapshot returns a point in time snapshot of the current state of the transaction.
